@@ -8,7 +8,7 @@ XS = 'http://www.w3.org/2001/XMLSchema'
 SOAPB = ('http://schemas.xmlsoap.org/wsdl/soap/', 'http://schemas.xmlsoap.org/wsdl/soap12/')
 
 
-def build(desc, prot='soap11'):
+def build(desc, prot='soap11', validator='lxml'):
     from spyne import Application, Service, srpc, rpc, ComplexModel, Integer, Unicode, Double, Boolean
     from spyne.model.fault import Fault
     from spyne.protocol.soap import Soap11, Soap12
@@ -75,7 +75,7 @@ def build(desc, prot='soap11'):
             d[m['name']] = rpc(*args, **kw)(ns[m['name']])
         services.append(type(str(sd['cls']), (Service,), d))
     P = Soap11 if prot == 'soap11' else Soap12
-    app = Application(services, desc['tns'], name=desc['name'], in_protocol=P(validator='lxml'), out_protocol=P())
+    app = Application(services, desc['tns'], name=desc['name'], in_protocol=P(validator=validator), out_protocol=P())
     return WsgiApplication(app), seen, {'C8': C8, 'O': O}
 
 
